@@ -24,6 +24,7 @@ var (
 	simrtPath = flag.String("simrt", "github.com/douban/gobeansdb/zzsimrt", "import path of the runtime")
 	yieldPkgs = flag.String("yieldpkgs", "store", "packages that get a Yield() at function entries")
 	verbose   = flag.Bool("v", false, "verbose")
+	stmtFiles = flag.String("stmtyield", "store/datachunk.go,store/data.go,store/bucket.go,store/hint.go,store/gc.go,store/hstore.go,store/collision.go", "files whose function bodies get a YieldStmt() before every statement")
 )
 
 func fatalf(f string, a ...interface{}) {
@@ -266,6 +267,9 @@ func (r *rw) post(n ast.Node) ast.Node {
 			x.Body.List = append([]ast.Stmt{call}, x.Body.List...)
 			r.st.yields++
 		}
+		if x.Body != nil && r.wantStmtYield(x) {
+			r.interleave(x.Body)
+		}
 		if x.Body != nil && r.wantYield(x) {
 			r.st.yields++
 			call := &ast.ExprStmt{X: &ast.CallExpr{Fun: r.simSel("Yield")}}
@@ -301,6 +305,86 @@ func (r *rw) wantYield(x *ast.FuncDecl) bool {
 		return false
 	}
 	return true
+}
+
+func (r *rw) wantStmtYield(x *ast.FuncDecl) bool {
+	ok := false
+	for _, f := range strings.Split(*stmtFiles, ",") {
+		if f != "" && strings.HasSuffix(filepath.ToSlash(r.file), f) {
+			ok = true
+		}
+	}
+	if !ok || x.Name.Name == "init" {
+		return false
+	}
+	switch x.Name.Name {
+	case "Less", "Swap", "Len", "String", "GoString", "updateNodesUpper":
+		return false
+	}
+	return true
+}
+
+// interleave inserts simrt.YieldStmt() before every statement of every block of a function body
+// (statement-level scheduling granularity, honoured only in worlds that enable it). Blocks of
+// function literals are included; select / switch case bodies too.
+func (r *rw) interleave(b *ast.BlockStmt) {
+	var doList func(list []ast.Stmt) []ast.Stmt
+	var visit func(n ast.Node)
+	yield := func() ast.Stmt {
+		r.st.yields++
+		return &ast.ExprStmt{X: &ast.CallExpr{Fun: r.simSel("YieldStmt")}}
+	}
+	doList = func(list []ast.Stmt) []ast.Stmt {
+		out := make([]ast.Stmt, 0, 2*len(list))
+		for _, st := range list {
+			visit(st)
+			switch st.(type) {
+			case *ast.DeclStmt, *ast.EmptyStmt, *ast.LabeledStmt:
+				out = append(out, st)
+				continue
+			}
+			out = append(out, yield(), st)
+		}
+		return out
+	}
+	visit = func(n ast.Node) {
+		ast.Inspect(n, func(m ast.Node) bool {
+			clauses := func(body *ast.BlockStmt) {
+				for _, c := range body.List {
+					switch cl := c.(type) {
+					case *ast.CaseClause:
+						cl.Body = doList(cl.Body)
+					case *ast.CommClause:
+						cl.Body = doList(cl.Body)
+					}
+				}
+			}
+			switch y := m.(type) {
+			case *ast.SwitchStmt:
+				clauses(y.Body)
+				return false
+			case *ast.TypeSwitchStmt:
+				clauses(y.Body)
+				return false
+			case *ast.SelectStmt:
+				clauses(y.Body)
+				return false
+			case *ast.BlockStmt:
+				if y != nil {
+					y.List = doList(y.List)
+				}
+				return false
+			case *ast.CaseClause:
+				y.Body = doList(y.Body)
+				return false
+			case *ast.CommClause:
+				y.Body = doList(y.Body)
+				return false
+			}
+			return true
+		})
+	}
+	b.List = doList(b.List)
 }
 
 func exprString(fset *token.FileSet, e ast.Expr) string {
